@@ -4,6 +4,8 @@
 // the harness made them happen (writers are parked at the verif hooks of file.WriteFile:
 // created / written / closed / returned), `crash` = SIGKILL of a child-process writer, `get` =
 // a FileCache.Get executed at that point, `probe` = directory listing + Get of every URL.
+// `cfail` / `wfail` / `rnfail` = the creation / write / rename of a Set call made to fail from outside
+// (faults.go), the call returning its error while the process lives on (history.go).
 // The Lean driver replays the trace through the model and compares every observation.
 package c14
 
@@ -477,6 +479,10 @@ func Run(c *common.Ctx) error {
 	}
 	// (j) the cache path re-pointed to another directory between the creation of FileCache values
 	if err = r.repointedPath(all2); err != nil {
+		return err
+	}
+	// (k) histories on one long-lived FileCache value with calls that fail (creation / write / rename)
+	if err = r.failureHistories(); err != nil {
 		return err
 	}
 	// (c) free-running goroutines and processes - supporting evidence
